@@ -80,9 +80,35 @@ def scratch_parent():
 
 
 def make_scratch(prefix="osaca-verif-"):
-    d = tempfile.mkdtemp(prefix=prefix, dir=scratch_parent())
+    d = tempfile.mkdtemp(prefix="%sp%d-" % (prefix, os.getpid()), dir=scratch_parent())
     _scratch_dirs.append(d)
     return d
+
+
+def cleanup_stale():
+    """Remove scratch directories left by checks whose process no longer exists (killed runs)."""
+    import re
+    parent = scratch_parent()
+    try:
+        names = os.listdir(parent)
+    except OSError:
+        return
+    for n in names:
+        m = re.match(r"osaca-verif-.*?p(\d+)-", n)
+        if not m:
+            continue
+        pid = int(m.group(1))
+        if pid == os.getpid():
+            continue
+        try:
+            os.kill(pid, 0)
+            alive = True
+        except ProcessLookupError:
+            alive = False
+        except PermissionError:
+            alive = True
+        if not alive:
+            shutil.rmtree(os.path.join(parent, n), ignore_errors=True)
 
 
 def remove_scratch(d):
